@@ -39,9 +39,10 @@ type World struct {
 	byObj  map[*types.Func]*Func
 	byLit  map[*ast.FuncLit]*Func
 	// call graph caches
-	calleesMemo  map[*Func][]*CallSite
-	sentinelMemo map[*types.Var]bool
-	closureMemo  map[*types.Var]*Func
+	calleesMemo      map[*Func][]*CallSite
+	sentinelMemo     map[*types.Var]bool
+	closureMemo      map[*types.Var]*Func
+	fieldTargetsMemo map[*types.Var][]*Func
 }
 
 type Func struct {
@@ -508,3 +509,59 @@ func (w *World) SortedFuncKeys() []string {
 type undecided struct{ msg string }
 
 func (u undecided) Error() string { return u.msg }
+
+// funcFieldTargets: the functions a func-typed struct field is initialised with (composite-literal entries and
+// assignments whose right side is a method value or a function name), over all loaded packages.
+func (w *World) funcFieldTargets(fld *types.Var) []*Func {
+	if w.fieldTargetsMemo == nil {
+		w.fieldTargetsMemo = map[*types.Var][]*Func{}
+	}
+	if r, ok := w.fieldTargetsMemo[fld]; ok {
+		return r
+	}
+	var out []*Func
+	add := func(info *types.Info, e ast.Expr) {
+		switch x := ast.Unparen(e).(type) {
+		case *ast.SelectorExpr:
+			if fo, ok := info.Uses[x.Sel].(*types.Func); ok {
+				if f := w.byObj[fo.Origin()]; f != nil {
+					out = append(out, f)
+				}
+			}
+		case *ast.Ident:
+			if fo, ok := info.Uses[x].(*types.Func); ok {
+				if f := w.byObj[fo.Origin()]; f != nil {
+					out = append(out, f)
+				}
+			}
+		case *ast.FuncLit:
+			if f := w.byLit[x]; f != nil {
+				out = append(out, f)
+			}
+		}
+	}
+	for _, p := range w.Pkgs {
+		info := p.TypesInfo
+		for _, file := range p.Syntax {
+			ast.Inspect(file, func(n ast.Node) bool {
+				switch x := n.(type) {
+				case *ast.KeyValueExpr:
+					if id, ok := x.Key.(*ast.Ident); ok && originOf(info.Uses[id]) == types.Object(fld) {
+						add(info, x.Value)
+					}
+				case *ast.AssignStmt:
+					for i, l := range x.Lhs {
+						if sel, ok := ast.Unparen(l).(*ast.SelectorExpr); ok && i < len(x.Rhs) {
+							if s := info.Selections[sel]; s != nil && originOf(s.Obj()) == types.Object(fld) {
+								add(info, x.Rhs[i])
+							}
+						}
+					}
+				}
+				return true
+			})
+		}
+	}
+	w.fieldTargetsMemo[fld] = out
+	return out
+}
